@@ -19,6 +19,7 @@ func checkC12(c *Ctx) {
 	c.explainf("C12 decides agreement of the printer's and the reader's tables: the escape sequences the string and char printers can emit (the documented output alphabet of strconv.Quote / QuoteRune, which they call) are all accepted by the reader's escape switch; the literal-decoding path never turns one byte of a string into a rune; the float printer never returns a bare shortest-'f' text, which for whole values is an integer literal; every token kind the atom classifier produces has an arm in the expression parser and the numeric arms parse with the base that matches the prefix the lexer strips; the end-of-text path flushes the last atom. No data printer pastes the raw text of a string value into its output (C12-RAW). It does not decide float text round trip, the regex cascade, or equality of read-back values.")
 
 	c.checkReaderSymbolsReadable("C12-SYMNAME")
+	c.checkPrintedWordsAreLiterals("C12-WORD")
 
 	// ---- C12-ESC
 	printers := map[string]string{"SexpStr.SexpString": "Quote", "SexpChar.SexpString": "QuoteRune"}
@@ -652,5 +653,104 @@ func (c *Ctx) checkReaderSymbolsReadable(rule string) {
 	}
 	if n < 3 {
 		c.undecided(rule, "Parser", "reader-made symbols", token.NoPos, fmt.Sprintf("only %d constant symbol names made by the parser found", n))
+	}
+}
+
+// checkPrintedWordsAreLiterals: C12-WORD. Values that print as a bare word --
+// nil, true, false -- read back as data only when the reader has a literal for
+// that word; otherwise the word is an ordinary symbol and (== x (read (str x)))
+// is false for every list that holds the value. The words are taken from the
+// printers (the constant that SexpSentinel.SexpString returns for the nil
+// value, the constants SexpBool.SexpString returns), and each must be compared
+// with by the expression parser or the atom classifier, or be accepted by a
+// constant pattern of the lexer that is not one of the symbol patterns.
+func (c *Ctx) checkPrintedWordsAreLiterals(rule string) {
+	words := map[string]string{} // word -> printer
+	nullVar := c.SZygo.Var("SexpNull")
+	if sp := c.fn("SexpSentinel.SexpString"); sp != nil && nullVar != nil {
+		for _, r := range returnsOf(sp) {
+			k, ok := r.Results[0].(*ssa.Const)
+			if !ok || k.Value == nil || k.Value.Kind() != constant.String {
+				continue
+			}
+			underNull := guardedBy(r.Block(), func(cond ssa.Value) (bool, bool) {
+				bo, ok := cond.(*ssa.BinOp)
+				if !ok || (bo.Op != token.EQL && bo.Op != token.NEQ) {
+					return false, false
+				}
+				for _, side := range []ssa.Value{bo.X, bo.Y} {
+					if u, ok := side.(*ssa.UnOp); ok && u.Op == token.MUL && u.X == ssa.Value(nullVar) {
+						return true, bo.Op == token.EQL
+					}
+				}
+				return false, false
+			})
+			if underNull {
+				words[constant.StringVal(k.Value)] = "SexpSentinel.SexpString"
+			}
+		}
+	}
+	if bp := c.fn("SexpBool.SexpString"); bp != nil {
+		for _, r := range returnsOf(bp) {
+			for _, leaf := range phiLeaves(r.Results[0]) {
+				if k, ok := leaf.(*ssa.Const); ok && k.Value != nil && k.Value.Kind() == constant.String {
+					words[constant.StringVal(k.Value)] = "SexpBool.SexpString"
+				}
+			}
+		}
+	}
+	if len(words) < 3 {
+		c.undecided(rule, "printers", "bare words", token.NoPos, fmt.Sprintf("only %d bare words found in the printers of nil and booleans (nil, true, false confirmed by reading)", len(words)))
+	}
+	compared := map[string]bool{}
+	for _, n := range []string{"Parser.ParseExpression", "Lexer.DecodeAtom"} {
+		if f := c.fn(n); f != nil {
+			for w := range stringsComparedIn(f) {
+				compared[w] = true
+			}
+		}
+	}
+	// constant patterns of the lexer other than the symbol patterns
+	var pats []*regexp.Regexp
+	if init := c.SZygo.Func("init"); init != nil {
+		eachInstr(init, func(b *ssa.BasicBlock, i int, in ssa.Instruction) {
+			st, ok := in.(*ssa.Store)
+			if !ok {
+				return
+			}
+			g, ok := st.Addr.(*ssa.Global)
+			if !ok || strings.Contains(g.Name(), "Symbol") || strings.Contains(g.Name(), "Dot") {
+				return
+			}
+			call, ok := st.Val.(*ssa.Call)
+			if !ok || call.Call.StaticCallee() == nil || call.Call.StaticCallee().Name() != "MustCompile" || len(call.Call.Args) != 1 {
+				return
+			}
+			if k, ok := call.Call.Args[0].(*ssa.Const); ok && k.Value != nil && k.Value.Kind() == constant.String {
+				src := constant.StringVal(k.Value)
+				if !strings.HasPrefix(src, "^") || !strings.HasSuffix(src, "$") {
+					return // not a pattern for a whole atom
+				}
+				if re, err := regexp.Compile(src); err == nil {
+					pats = append(pats, re)
+				}
+			}
+		})
+	}
+	var ws []string
+	for w := range words {
+		ws = append(ws, w)
+	}
+	sort.Strings(ws)
+	for _, w := range ws {
+		ok := compared[w]
+		for _, re := range pats {
+			if re.MatchString(w) {
+				ok = true
+			}
+		}
+		c.check(ok, rule, words[w], "the word `"+w+"` has a literal in the reader", token.NoPos,
+			"the reader compares an atom with `"+w+"` (or a literal pattern of the lexer accepts it): the printed value reads back as the value",
+			"the value prints as the bare word `"+w+"`, and the reader has no literal for it: read back as data it is the symbol `"+w+"`, so a list or array that holds the value does not read back equal")
 	}
 }
